@@ -1,8 +1,9 @@
 (* C05  Encryption-protected values are never exposed on an unencrypted link.
    Statements only; proofs live in AttSrv/AttSrvProofsC05.v (non-interference, integrity, error codes) and
    AttSrv/AttSrvProofsVal.v (refinement of the reference semantics, used by the monitor theorem). *)
-From BT Require Import Base.ListX AttDb.AttDbModel NQueue.NQueueModel AttSrv.AttSrvModel AttSrv.AttSrvSpecVal
-  AttSrv.AttSrvSpecC05 AttSrv.AttSrvProofsVal AttSrv.AttSrvProofsC05 AttSrv.AttSrvExamplesVal.
+From BT Require Import Base.ListX AttDb.AttDbModel AttDb.AttDbProofs NQueue.NQueueModel AttSrv.AttSrvModel AttSrv.AttSrvSpecVal
+  AttSrv.AttSrvSpecC05 AttSrv.AttSrvProofsVal AttSrv.AttSrvProofsC05 AttSrv.AttSrvFrame AttSrv.AttSrvProofsC09
+  AttSrv.AttSrvProofsC05Cccd AttSrv.AttSrvProofsScan AttSrv.AttSrvProofsC05Scan AttSrv.AttSrvExamplesVal.
 Local Open Scope N_scope.
 
 (* ---- which characteristics are protected: the innermost explicit choice among characteristic, service and
@@ -81,17 +82,52 @@ Theorem C05_monitor_sound :
 Proof. exact monitor_sound. Qed.
 Print Assumptions C05_monitor_sound.
 
-(* ---- NOT proved, stated only: the protected CCCD bits of the whole connection are unchanged
-   by a request on an unencrypted link. Per attribute this is C05_protected_write_refused (a write through the
-   protected CCCD attribute changes nothing); the statement below additionally needs that a write to ANOTHER
-   characteristic's CCCD leaves these two bits alone, i.e. that cccd_position is injective on the declared CCCDs
-   (the sorted CCCD indices are a permutation) - C09's subject. Monitored / tied only. *)
-Definition C05_protected_cccd_unchanged_full : Prop :=
+(* ---- every history, Read By Type, Read Multiple and l2cap_output included: for well formed configurations
+   without include_service<> (where the handle mapping has its inverse laws: C04) and requests made of bytes,
+   no Read By Type entry, no answered Read Multiple and no notification / indication on an unencrypted link names
+   a protected value or CCCD, and a Read Multiple refused because of a protected handle carries 05 / 0F *)
+Theorem C05_monitor_sound_all :
+  forall c ops, wf c -> no_includes c -> all_bytes ops = true -> monitor c (srv_run c (srv_init c) ops) = None.
+Proof. exact monitor_sound_all. Qed.
+Print Assumptions C05_monitor_sound_all.
+
+(* the scanned outputs, directly: every handle in them is one this connection may read *)
+Theorem C05_read_by_type_entries_are_readable :
+  forall c st cid k pdu b out_size st' b' m,
+    wf c -> no_includes c -> get_conn st cid = Some k -> 23 <= out_size -> out_size <= len b ->
+    handle_read_by_type c st cid pdu b out_size = Some (st', (b', m)) -> m <= len b' ->
+    forall l entries, takeN m b' = 9 :: l :: entries ->
+    forall h, In h (entry_handles (length entries) (N.to_nat l) entries) -> readable_here c k h.
+Proof. exact read_by_type_handles. Qed.
+Print Assumptions C05_read_by_type_entries_are_readable.
+
+Theorem C05_notified_handle_is_readable :
+  forall c st cid k n st' r, wf c -> no_includes c -> get_conn st cid = Some k -> att_output c st cid n = Some (st', r) ->
+    forall op lo hi t, r = op :: lo :: hi :: t -> readable_here c k (lo + 256 * hi).
+Proof. exact att_output_handle. Qed.
+Print Assumptions C05_notified_handle_is_readable.
+
+(* ---- "never modified", client configurations, connection wide: a request through an unencrypted connection
+   leaves the two CCCD bits of EVERY protected characteristic of that connection unchanged - also when it writes
+   the CCCD of another characteristic (the packed store is a lens, cccd_position is injective: C09). The
+   hypothesis conn_store_ok (bytes < 256, right length) holds in every reachable state. *)
+Theorem C05_protected_cccd_unchanged :
   forall c st cid pdu n st' rs k k' i s ch cci,
-    wf c -> get_conn st cid = Some k -> encrypted k = false ->
+    get_conn st cid = Some k -> conn_store_ok c k -> encrypted k = false ->
     att_input c st cid pdu n = Some (st', rs) -> get_conn st' cid = Some k' ->
     attribute_at c i = Some (ACccd s ch cci) -> char_requires_encryption c s ch = true ->
     cccd_get (cccd k') (cccd_position c cci) = cccd_get (cccd k) (cccd_position c cci).
+Proof. exact protected_cccd_unchanged. Qed.
+Print Assumptions C05_protected_cccd_unchanged.
+
+Theorem C05_protected_cccd_unchanged_reachable :
+  forall c ops cid pdu n st' rs k k' i s ch cci,
+    get_conn (srv_after c (srv_init c) ops) cid = Some k -> encrypted k = false ->
+    att_input c (srv_after c (srv_init c) ops) cid pdu n = Some (st', rs) -> get_conn st' cid = Some k' ->
+    attribute_at c i = Some (ACccd s ch cci) -> char_requires_encryption c s ch = true ->
+    cccd_get (cccd k') (cccd_position c cci) = cccd_get (cccd k) (cccd_position c cci).
+Proof. exact protected_cccd_unchanged_reachable. Qed.
+Print Assumptions C05_protected_cccd_unchanged_reachable.
 
 (* ---- non-vacuity *)
 (* cfg_v_wq10: characteristic 3 (handle 11, one byte) requires encryption, characteristic 0 (handle 3) does not *)
